@@ -184,6 +184,20 @@ def run(ctx):
         job("btcdeb", ["--tx=" + a, "--txin=" + text_mut(rnd, b)], inp="\n")
         job("btcdeb", ["--tx=" + rnd.choice(("", "1:", ",", "1,2:", ":")) + a], inp="[OP_1]\n")
         job("tap", rnd.choice(([], ["--tx=" + text_mut(rnd, a), "--txin=" + b])) + [text_mut(rnd, P.xonly(7).hex()), str(rnd.choice((0, 1, 2, 3))), "[OP_1]", "[OP_2]", str(rnd.choice((0, 1, 5)))])
+    # regression cases of repaired defects (found by an independent reviewer of the tree, reproduced, fixed: KNOWN_FINDINGS.txt)
+    KEYX = "f30544d6009c8d8d94f5d030b2e844b1a3ca036255161c479db1cca5b374dd1c"
+    job("tap", ["--tx=02000000000101bee7e1540b689a1790a96351ec66fa8f1ad49a2ff9b95dd7baff73c3659fde2d0000000000ffffffff01905f010000000000015101010100000000",
+                "--txin=020000000111111111111111111111111111111111111111111111111111111111111111110000000000ffffffff01a086010000000000222100d1c2a6bc2d267dccba6ef802872584ba3f3491f5efa4047a76f0b2a9747b9c1b00000000",
+                KEYX, "1", "[OP_1]"])
+    job("tap", ["--tx=0200000001198c20cfb96f2680a594537575a63b735df1ec26886a06043c9c7b5798581de500000000020151ffffffff01905f010000000000015100000000",
+                "--txin=020000000111111111111111111111111111111111111111111111111111111111111111110000000000ffffffff01a086010000000000225120d1c2a6bc2d267dccba6ef802872584ba3f3491f5efa4047a76f0b2a9747b9c1b00000000",
+                KEYX, "1", "[OP_1]"])
+    for n in (100000, 12000000):
+        job("btcdeb", [], inp="1" * n + "\n")
+        job("btcdeb", [], inp="[" + "1" * n + "]\n")
+        job("btcc", [], inp="7" * (n + 1) + "\n")
+    job("btcdeb", ["-f-CONST_SCRIPTCODE", "[OP_CHECKSIG]"] + ["0x01"] * 1001, "tty", "tty", "exec OP_CODESEPARATOR\nstep\nstep\n\x04")
+    job("btcdeb", ["-f-CONST_SCRIPTCODE", "[OP_1 OP_CHECKSIG]"] + ["0x01"] * 1000, "tty", "tty", "exec OP_CODESEPARATOR OP_1\nstep\nstep\n\x04")
     # interactive command sequences
     cmds = ["step", "rewind", "stack", "altstack", "vfexec", "print", "exec", "exec OP_1", "exec OP_CODESEPARATOR OP_CHECKSIG", "exec 0x", "exec [", "tf", "tf -h",
             "tf add 1 2", "tf sha256", "tf sha256 abc", "tf bech32-decode x", "tf base58chk-decode x", "tf addr-to-scriptpubkey x", "tf jacobi-symbol 0", "tf nosuch 1",
